@@ -240,12 +240,18 @@ async fn raw_h1_conn_on(net: Network, plan: ConnPlan, obs: Arc<Mutex<ConnObs>>, 
                 }
                 io.write_all(c).await?;
             }
+            io.flush().await?;
             if let (Some(nh), true) = (&next_head, r.pipeline_bytes > 0) {
-                // the beginning (or all) of the next request's head goes out before this response is read
-                sent_of_next = r.pipeline_bytes.min(nh.len());
-                io.write_all(&nh[..sent_of_next]).await?;
+                // the beginning (or all) of the next request's head goes out before this response is
+                // read. A server that is shutting down may have answered this request and closed
+                // already: failing to write the *next* request says nothing about this one, whose
+                // response is then still to be read.
+                let n = r.pipeline_bytes.min(nh.len());
+                if io.write_all(&nh[..n]).await.is_ok() && io.flush().await.is_ok() {
+                    sent_of_next = n;
+                }
             }
-            io.flush().await
+            Ok::<(), std::io::Error>(())
         };
         if obs.lock().first_byte_ms.is_none() {
             obs.lock().first_byte_ms = Some(net.now_ms());
